@@ -220,7 +220,7 @@ func runC08(env *lib.Env, rep *lib.Report) {
 	}
 	paths := []string{"direct", "sqltext"}
 	ops := []string{"insert", "update"}
-	journeys := []string{"cache->flush(tiny cache)->restart", "crash-recovery-from-log"}
+	journeys := []string{"cache->flush(tiny cache)->restart", "crash-recovery-from-log", "multi-page table: updates of first/middle/last rows, flush, eviction, re-selection, restart"}
 	rep.Bounds["schemas"] = fmt.Sprintf("%d (all orders of 1..3 columns (thorough: 1..4) over int, bigint, varchar, boolean)", len(schemas))
 	rep.Bounds["supply paths"] = paths
 	rep.Bounds["operations"] = ops
@@ -232,6 +232,14 @@ func runC08(env *lib.Env, rep *lib.Report) {
 		op := ops[c.Choose(len(ops), "op")]
 		journey := c.Choose(len(journeys), "journey")
 		c.Logf("schema %v, path %s, op %s, journey %s", types, path, op, journeys[journey])
+		if journey == 2 {
+			if op == "update" {
+				c08MultiPage(c, types, path)
+			} else {
+				c.Tag("journey-2-is-update-only")
+			}
+			return
+		}
 		// journey 0 runs with a 12-page cache and a timer flush every few statements, so stored
 		// pages are continually evicted and re-read; journey 1 never flushes (values live in the log only)
 		wo := worldOpt{}
@@ -418,4 +426,128 @@ func c08Compare(w *world, expect [][]any, when string) bool {
 		}
 	}
 	return true
+}
+
+// c08MultiPage: a table of 12 rows (root + several leaves) whose first, middle
+// and last rows are updated to shorter / longer / NULL values, observed in the
+// cache, after a flush with an 8-page cache (eviction + reload), after
+// re-selecting the database (close + open, no log replay) and after restart.
+func c08MultiPage(c *lib.Ctx, types []string, path string) {
+	w := newWorld(c, worldOpt{Cache: 8})
+	defer func() { w.destroy() }()
+	names := []string{"id"}
+	ddl := []string{"id int"}
+	for i, t := range types {
+		names = append(names, fmt.Sprintf("k%d", i))
+		ddl = append(ddl, colDDL(mCol{names[i+1], t}))
+	}
+	if err := w.exec("CREATE TABLE v (" + strings.Join(ddl, ", ") + ")"); err != nil {
+		w.failErr("create-failed", "CREATE TABLE v", err)
+		return
+	}
+	longDefault := func(t string, k int) (any, string) {
+		if t == "varchar" {
+			s := fmt.Sprintf("row-%02d-", k) + strings.Repeat("m", 24)
+			return s, "'" + s + "'"
+		}
+		return c08Default(t, k)
+	}
+	var expect [][]any
+	for k := 0; k < 12; k++ {
+		vals := []any{int64(k)}
+		lits := []string{fmt.Sprint(k)}
+		for _, t := range types {
+			v, l := longDefault(t, k)
+			vals, lits = append(vals, v), append(lits, l)
+		}
+		if err := w.exec("INSERT INTO v VALUES (" + strings.Join(lits, ", ") + ")"); err != nil {
+			w.failErr("insert-failed", "seed row", err)
+			return
+		}
+		expect = append(expect, vals)
+		if k%3 == 2 && !w.tick() {
+			return
+		}
+	}
+	if !w.tick() || !c08Compare(w, expect, "seeded multi-page table") {
+		return
+	}
+	c.NonTrivial()
+	c.Class(fmt.Sprintf("%v/%s/multipage", types, path))
+	reselect := func() bool {
+		c.Logf("USE d (re-select: close + open)")
+		if err := w.exec("USE d"); err != nil {
+			w.failErr("use-failed", "USE d", err)
+			return false
+		}
+		return true
+	}
+	n := 0
+	for _, pos := range []int{0, 5, 11} {
+		for j, t := range types {
+			var cands []c08Val
+			for _, v := range c08Values(t, false) {
+				if !v.ok {
+					continue
+				}
+				if s, isStr := v.v.(string); isStr && len(s) == 1 && s != "a" {
+					continue // the 256 single bytes are covered by the single-row journeys
+				}
+				if path == "sqltext" && (v.sqlLit == "" || v.v == nil) {
+					continue
+				}
+				cands = append(cands, v)
+			}
+			for _, v := range cands {
+				n++
+				var err error
+				if path == "direct" {
+					q := sql.UpdateStatementSearched{TableName: "v", Set: []sql.SetClause{{ObjectColumn: names[j+1], UpdateSource: v.v}},
+						Where: sql.WhereClause{SearchCondition: sql.Predicate{ComparisonPredicate: sql.ComparisonPredicate{LHS: sql.ColumnReference{ColumnName: "id"}, CompOp: sql.EQ, RHS: int64(pos)}}}}
+					err = guard(func() error { return EvaluateUpdate(q, w.sess.RelationService) })
+				} else {
+					err = w.exec(fmt.Sprintf("UPDATE v SET %s = %s WHERE id = %d", names[j+1], v.sqlLit, pos))
+				}
+				if err != nil {
+					w.failErr("valid-value-refused", fmt.Sprintf("UPDATE row %d column %s = %s", pos, names[j+1], clipAny(v.v)), err)
+					return
+				}
+				expect[pos][j+1] = v.v
+				if !c08Compare(w, expect, fmt.Sprintf("right after updating row %d column %d to %s", pos, j, clipAny(v.v))) {
+					return
+				}
+				switch n % 3 {
+				case 0:
+					if !w.tick() || !c08Compare(w, expect, "after flush (8-page cache: pages are evicted and re-read)") {
+						return
+					}
+				case 1:
+					// no flush: the page stays modified in the cache while other pages are scanned
+					if _, _, err := w.query("SELECT * FROM sys_schema"); err != nil {
+						w.failErr("select-failed", "catalog scan", err)
+						return
+					}
+					if !c08Compare(w, expect, "after scanning other pages with the update unflushed") {
+						return
+					}
+				case 2:
+					if !reselect() || !c08Compare(w, expect, "after re-selecting the database") {
+						return
+					}
+				}
+			}
+		}
+	}
+	rs := w.sess.RelationService
+	if err := guard(func() error { return w.sess.Close() }); err != nil {
+		w.failErr("close-failed", "Session.Close", err)
+		return
+	}
+	storage.VerifMarkClosed(rs)
+	w = w.recoverFrom(w.image(), false)
+	if c.Failed() {
+		return
+	}
+	c08Compare(w, expect, "after clean restart")
+	c.Observe(types, path, n)
 }
